@@ -434,12 +434,18 @@ def evaluate(prop, res):
             real = [tuple(x) for x in res["surfaces"].get(name, [])]
             msurf = model.get(name, {}).get("surface")
             if msurf is None:
-                continue
+                # the model rejects this declaration (that disagreement is C09's / C19's); the access-specifier rule of
+                # C17 is still checked against the real surface, the model comparison is skipped
+                if prop != "C17":
+                    continue
+                msurf = []
             mdl = [(k, n[2:] if n.startswith("r#") else n, p == "1", c == "1", dd == "1") for (k, n, p, c, dd) in msurf]
             # the model does not list the struct itself; steps and build are plain fns in the dump
             real_n = [("fn" if k in ("fn",) else k, n, p, c, dd) for (k, n, p, c, dd) in real if not (k == "struct" and n == name)]
             mdl_n = [("fn" if k in ("step", "build") else k, n, p, c, dd) for (k, n, p, c, dd) in mdl]
             cov["surfaces"] += 1
+            if prop in ("C15", "C17", "C18") and len(samples) < 2 and len(real_n) > 6:
+                samples.append({"declaration": name, "emitted_items(kind,name,pub,const,doc)": real_n[:10]})
             rs, ms = collections.Counter(real_n), collections.Counter(mdl_n)
             if prop == "C17":
                 cov["accessor_items"] += sum(1 for x in real_n if x[0] == "fn")
@@ -452,7 +458,7 @@ def evaluate(prop, res):
                         {"declaration": name, "extra": sorted(real_acc - want), "missing": sorted(want - real_acc), "source": src})
                 rk = collections.Counter((k, n) for (k, n, p, c, dd) in real_n)
                 mk = collections.Counter((k, n) for (k, n, p, c, dd) in mdl_n)
-                if rk != mk and real_acc == want:
+                if msurf and rk != mk and real_acc == want:
                     add("correspondence", "item set of the expansion differs from the model", {"declaration": name, "only_real": sorted((rk - mk).keys()), "only_model": sorted((mk - rk).keys())})
             if prop == "C15":
                 for (k, n, p, c, dd) in real_n:
@@ -509,6 +515,9 @@ def evaluate(prop, res):
             sound = all(v <= 1 for v in counts.values()) and (d["default"] is not None or all(counts.get(p, 0) >= 1 for p in range(N)))
             real_has = any(x[1] == "builder" for x in res["surfaces"].get(name, []))
             cov["builder_spec_yes" if sound else "builder_spec_no"] += 1
+            if len(samples) < 2 and "builder-overlap" in d["classes"]:
+                samples.append({"declaration": name, "fields": [(f["name"], render.field_ty_text(f), f["attrs"]) for f in d["fields"]],
+                                "default": d["default"], "builder_sound_by_rule": sound, "builder_offered": real_has})
             if real_has != sound:
                 src, _ = decl_source(table, d)
                 add("violation", "builder() is %s although the declaration is %s" % ("offered" if real_has else "missing", "sound and complete" if sound else "unsound or incomplete"),
@@ -545,6 +554,8 @@ def evaluate(prop, res):
             if (prop == "C14") != is14:
                 continue
             cov["probes_" + e["expect"]] += 1
+            if len(samples) < 4 and (e["expect"] == "err") == (len(samples) % 2 == 1):
+                samples.append({"compile_time_probe": e["what"], "declaration": e["decl"], "expected": e["expect"], "rustc": e["got"], "errors": e["errors"][:1]})
             if e["expect"] != e["got"]:
                 d = table.get(e["decl"])
                 src = decl_source(table, d)[0] if d else ""
@@ -749,12 +760,13 @@ def main(argv):
         "property_id": prop, "tier": tier, "seed": seed, "level": "proof",
         "coverage": {
             "obligations": lean["obligations"], "discharged": lean["discharged"],
+            "obligation_samples": lean["theorems"][:3],
             "checker_cmd": lean["checker_cmd"], "trusted_base": TRUSTED_BASE,
             "theorems": lean["theorems"],
             "correspondence": {k: v for k, v in cov.items()},
             "evaluations": max(1, ops_total + cov.get("decls_valid", 0) + cov.get("decls_invalid", 0) + cov.get("surfaces", 0)),
             "rule": "theorems of namespace Bb.%s checked by the Lean kernel; correspondence: corpus declarations (systematic over template branches and boundary widths + seeded random) built against /repo's working tree, every probe operation executed on the real code and compared with the Lean model (M) and the reference semantics (S)" % prop,
-            "samples": samples or [{"note": "see correspondence counts"}],
+            "samples": samples or [{"obligation": t} for t in lean["theorems"][:3]] or [{"note": "no sample"}],
             "declarations_total": len(res["decls"]), "declarations_accepted_by_rustc": len(res["rustc_accepted"]),
             "driver_stats": res.get("stats", {}),
             "model_disagreements": len(corr), "implementation_vs_oracle_failures": len(real),
